@@ -187,10 +187,11 @@ class Replayer:
             mask = array([bool(m) for m in p[n:]])
             f = ConvexLinearApprox(array(pf[:n]), k[0], None if mask.all() else mask)
         elif op in ("aggmax", "aggsq", "aggpos"):
-            idx = None if p[1] == 0 else [int(i) for i in p[2:]]
+            idx = None if p[1] == 0 else [int(i) for i in p[2:2 + p[1]]]
             k[0].f_type = "eq" if op == "aggsq" else "ineq"
             agg = {"aggmax": aggregate_max, "aggsq": aggregate_sum_square, "aggpos": aggregate_positive_sum_square}[op]
-            f = agg(k[0], indices=idx, scale=pf[0])
+            # p = <<scale, k, indices>> (+ one factor per selected constraint when scale = 0: a vector scale)
+            f = agg(k[0], indices=idx, scale=pf[0] if p[0] != 0 else array(pf[2 + p[1]:]))
         else:  # pragma: no cover
             raise KeyError(op)
         return f
@@ -253,6 +254,9 @@ class Replayer:
         if op in ("aggmax", "aggsq", "aggpos"):
             sig["scale_is_one"] = p[0] == 1
             sig["indices"] = p[1] != 0
+            sig["vector_scale"] = p[0] == 0
+            if p[0] == 0:
+                sig["several_selected"] = len(p) - 2 - p[1] >= 2
         if extra:
             sig.update(extra)
         return sig
